@@ -49,6 +49,85 @@ type p18Op struct {
 	Key     int               `json:"key"`
 	Replace bool              `json:"replace,omitempty"`
 	Tags    map[string]string `json:"tags,omitempty"` // t0..t3 -> value
+	Q       *p18Query         `json:"q,omitempty"`
+}
+
+// p18Query is a generated user query: positive criteria (a missing tag never matches), an optional
+// order by one tag, an optional projection, a limit relative to the expected result size.
+type p18Query struct {
+	Crit    *p18Crit `json:"crit,omitempty"`
+	Order   string   `json:"order,omitempty"`
+	Desc    bool     `json:"desc,omitempty"`
+	Proj    []string `json:"proj,omitempty"`
+	LimitBy int      `json:"limit_by"` // limit = max(1, expected + LimitBy)
+}
+
+type p18Crit struct {
+	Op    string   `json:"op"` // eq | in | and | or
+	Tag   string   `json:"tag,omitempty"`
+	Vals  []string `json:"vals,omitempty"`
+	Left  *p18Crit `json:"left,omitempty"`
+	Right *p18Crit `json:"right,omitempty"`
+}
+
+func (c *p18Crit) eval(tags map[string]string) bool {
+	switch c.Op {
+	case "eq":
+		v, ok := tags[c.Tag]
+		return ok && v == c.Vals[0]
+	case "in":
+		v, ok := tags[c.Tag]
+		if !ok {
+			return false
+		}
+		for _, w := range c.Vals {
+			if v == w {
+				return true
+			}
+		}
+		return false
+	case "and":
+		return c.Left.eval(tags) && c.Right.eval(tags)
+	default:
+		return c.Left.eval(tags) || c.Right.eval(tags)
+	}
+}
+
+func (c *p18Crit) proto() *modelv1.Criteria {
+	str := func(v string) *modelv1.TagValue {
+		return &modelv1.TagValue{Value: &modelv1.TagValue_Str{Str: &modelv1.Str{Value: v}}}
+	}
+	switch c.Op {
+	case "eq":
+		return &modelv1.Criteria{Exp: &modelv1.Criteria_Condition{Condition: &modelv1.Condition{Name: c.Tag, Op: modelv1.Condition_BINARY_OP_EQ, Value: str(c.Vals[0])}}}
+	case "in":
+		return &modelv1.Criteria{Exp: &modelv1.Criteria_Condition{Condition: &modelv1.Condition{Name: c.Tag, Op: modelv1.Condition_BINARY_OP_IN,
+			Value: &modelv1.TagValue{Value: &modelv1.TagValue_StrArray{StrArray: &modelv1.StrArray{Value: c.Vals}}}}}}
+	}
+	op := modelv1.LogicalExpression_LOGICAL_OP_AND
+	if c.Op == "or" {
+		op = modelv1.LogicalExpression_LOGICAL_OP_OR
+	}
+	return &modelv1.Criteria{Exp: &modelv1.Criteria_Le{Le: &modelv1.LogicalExpression{Op: op, Left: c.Left.proto(), Right: c.Right.proto()}}}
+}
+
+func p18GenCrit(t *rapid.T, depth int) *p18Crit {
+	kinds := []string{"eq", "eq", "in"}
+	if depth > 0 {
+		kinds = append(kinds, "and", "or")
+	}
+	c := &p18Crit{Op: rapid.SampledFrom(kinds).Draw(t, "critop")}
+	switch c.Op {
+	case "eq":
+		c.Tag = rapid.SampledFrom([]string{"t0", "t1", "t2", "t3"}).Draw(t, "ctag")
+		c.Vals = []string{rapid.SampledFrom([]string{"a", "b", "c"}).Draw(t, "cval")}
+	case "in":
+		c.Tag = rapid.SampledFrom([]string{"t0", "t1", "t2", "t3"}).Draw(t, "ctag")
+		c.Vals = rapid.SliceOfNDistinct(rapid.SampledFrom([]string{"a", "b", "c"}), 1, 3, rapid.ID[string]).Draw(t, "cvals")
+	default:
+		c.Left, c.Right = p18GenCrit(t, depth-1), p18GenCrit(t, depth-1)
+	}
+	return c
 }
 
 type p18Case struct {
@@ -233,6 +312,7 @@ func runP18(x *verifkit.Ctx, c p18Case) error {
 	model := map[int]*p18Entry{}
 	lastMod := map[int]int64{}
 	merged, replaced, deleted, reapplied := false, false, false, false
+	userQueries, ordered := false, false
 	checkAll := func(what string) error {
 		resp, qerr := ps.Query(ctx, &propertyv1.QueryRequest{Groups: []string{p18Group}, Name: p18Name, Limit: 1000})
 		if qerr != nil {
@@ -398,6 +478,15 @@ func runP18(x *verifkit.Ctx, c p18Case) error {
 			}
 			model = map[int]*p18Entry{}
 		case "query":
+			if op.Q != nil {
+				if qerr := p18UserQuery(ctx, ps, model, op.Q, what); qerr != nil {
+					return qerr
+				}
+				userQueries = true
+				if op.Q.Order != "" {
+					ordered = true
+				}
+			}
 			// a limited query with room for every live key must still return every live key
 			if n := len(model); n > 0 {
 				lim := uint32(n + op.Times)
@@ -433,6 +522,8 @@ func runP18(x *verifkit.Ctx, c p18Case) error {
 	x.LabelIf(replaced, "replace of a live key")
 	x.LabelIf(deleted, "delete of a live key")
 	x.LabelIf(reapplied, "apply after delete")
+	x.LabelIf(userQueries, "query with criteria / order / projection")
+	x.LabelIf(ordered, "ordered query")
 	x.LabelIf(maxRevisions > 100, "> 100 revisions of one key")
 	x.LabelIf(maxLive > 100, "> 100 live keys")
 	x.LabelIf(c.Nodes > 1, ">= 2 data nodes")
@@ -443,11 +534,69 @@ func runP18(x *verifkit.Ctx, c p18Case) error {
 	return nil
 }
 
+// p18UserQuery runs one generated user query and compares it with the map model: the expected keys are the
+// live keys whose current tags satisfy the criteria; with a limit below that number any subset of the right
+// size is accepted. The order of the rows of an ordered query is not part of the property and is not asserted
+// (ordered queries are generated because they take the liaison's other de-duplication path).
+func p18UserQuery(ctx context.Context, ps *propertyServer, model map[int]*p18Entry, q *p18Query, what string) error {
+	expect := map[string]map[string]string{}
+	for k, e := range model {
+		if q.Crit != nil && !q.Crit.eval(e.tags) {
+			continue
+		}
+		expect[p18ID(k)] = e.tags
+	}
+	limit := max(1, len(expect)+q.LimitBy)
+	req := &propertyv1.QueryRequest{Groups: []string{p18Group}, Name: p18Name, Limit: uint32(limit), TagProjection: q.Proj}
+	if q.Crit != nil {
+		req.Criteria = q.Crit.proto()
+	}
+	if q.Order != "" {
+		req.OrderBy = &propertyv1.QueryOrder{TagName: q.Order, Sort: modelv1.Sort_SORT_ASC}
+		if q.Desc {
+			req.OrderBy.Sort = modelv1.Sort_SORT_DESC
+		}
+	}
+	desc := fmt.Sprintf("%s: query %+v", what, *req)
+	resp, err := ps.Query(ctx, req)
+	if err != nil {
+		return fmt.Errorf("%s failed: %v", desc, err)
+	}
+	want := min(limit, len(expect))
+	if len(resp.GetProperties()) != want {
+		return fmt.Errorf("%s returns %d properties, the map model selects %d (limit %d)", desc, len(resp.GetProperties()), len(expect), limit)
+	}
+	seen := map[string]bool{}
+	for _, p := range resp.GetProperties() {
+		tags, ok := expect[p.GetId()]
+		if !ok {
+			return fmt.Errorf("%s returns key %s [%s] which the map model does not select", desc, p.GetId(), p18Render(p.GetTags()))
+		}
+		if seen[p.GetId()] {
+			return fmt.Errorf("%s returns key %s twice", desc, p.GetId())
+		}
+		seen[p.GetId()] = true
+		wantTags := tags
+		if len(q.Proj) > 0 {
+			wantTags = map[string]string{}
+			for _, name := range q.Proj {
+				if v, ok := tags[name]; ok {
+					wantTags[name] = v
+				}
+			}
+		}
+		if p18Render(p.GetTags()) != p18RenderMap(wantTags) {
+			return fmt.Errorf("%s returns key %s with [%s], the map model holds [%s]", desc, p.GetId(), p18Render(p.GetTags()), p18RenderMap(wantTags))
+		}
+	}
+	return nil
+}
+
 func TestVerifC18Map(t *testing.T) {
 	verifkit.Run(t, verifkit.Spec[p18Case]{
 		Property: "C18", Unit: "map",
 		Rule: "1..3 data nodes (real property databases behind the real data-node listeners), 0..1 extra copies, 2 shards; 1..25 operations over 4 keys: " +
-			"Apply with the merge or the replace strategy and 1..4 of the tags t0..t3, Delete of a key, Delete of all keys, Query by id and with a limit >= the number of live keys, " +
+			"Apply with the merge or the replace strategy and 1..4 of the tags t0..t3, Delete of a key, Delete of all keys, Query by id, with a limit >= the number of live keys and with generated positive criteria (eq / in / and / or), order by a tag, tag projection and a limit around the expected size, " +
 			"a burst of 95..130 applies to one key, 95..330 applies to fresh keys - all through the real liaison PropertyService " +
 			"wired to the nodes by an in-process pipeline; after every operation a full query must return exactly the keys of a map model with their tags " +
 			"(merge keeps earlier tags, replace discards them), a live key keeps its creation revision and its modification revision increases with every " +
@@ -457,13 +606,27 @@ func TestVerifC18Map(t *testing.T) {
 			c.Replicas = rapid.IntRange(0, min(1, c.Nodes-1)).Draw(t, "replicas")
 			n := rapid.IntRange(1, 25).Draw(t, "nops")
 			for i := 0; i < n; i++ {
-				op := p18Op{Kind: rapid.SampledFrom([]string{"apply", "apply", "apply", "apply", "apply", "apply", "delete", "delete", "query", "query", "burst", "deleteall", "many"}).Draw(t, "kind"),
+				op := p18Op{Kind: rapid.SampledFrom([]string{"apply", "apply", "apply", "apply", "apply", "apply", "delete", "delete", "query", "query", "deleteall"}).Draw(t, "kind"),
 					Key: rapid.IntRange(0, 3).Draw(t, "key")}
 				if op.Kind == "burst" {
 					op.Times = rapid.IntRange(95, 130).Draw(t, "times")
 				}
 				if op.Kind == "query" {
 					op.Times = rapid.IntRange(0, 3).Draw(t, "slack")
+					if rapid.IntRange(0, 3).Draw(t, "userq") > 0 {
+						q := &p18Query{LimitBy: rapid.IntRange(-2, 2).Draw(t, "limitby")}
+						if rapid.Bool().Draw(t, "hascrit") {
+							q.Crit = p18GenCrit(t, 2)
+						}
+						if rapid.Bool().Draw(t, "hasorder") {
+							q.Order = rapid.SampledFrom([]string{"t0", "t1", "t2", "t3"}).Draw(t, "order")
+							q.Desc = rapid.Bool().Draw(t, "desc")
+						}
+						if rapid.IntRange(0, 2).Draw(t, "hasproj") == 0 {
+							q.Proj = rapid.SliceOfNDistinct(rapid.SampledFrom([]string{"t0", "t1", "t2", "t3"}), 1, 3, rapid.ID[string]).Draw(t, "proj")
+						}
+						op.Q = q
+					}
 				}
 				if op.Kind == "many" {
 					op.Times = rapid.IntRange(95, 330).Draw(t, "times")
@@ -478,9 +641,27 @@ func TestVerifC18Map(t *testing.T) {
 				}
 				c.Ops = append(c.Ops, op)
 			}
+			// at most one burst on one key and one wave of fresh keys per case (they dominate the cost)
+			heavy := rapid.SampledFrom([]string{"", "", "", "burst", "burst", "many", "both"}).Draw(t, "heavy")
+			insert := func(op p18Op) {
+				op.Replace = rapid.Bool().Draw(t, "hreplace")
+				op.Tags = map[string]string{}
+				k := rapid.IntRange(1, 4).Draw(t, "hntags")
+				for _, name := range rapid.Permutation([]string{"t0", "t1", "t2", "t3"}).Draw(t, "htagnames")[:k] {
+					op.Tags[name] = rapid.SampledFrom([]string{"a", "b", "c", ""}).Draw(t, "hval")
+				}
+				at := rapid.IntRange(0, len(c.Ops)).Draw(t, "hat")
+				c.Ops = append(c.Ops[:at], append([]p18Op{op}, c.Ops[at:]...)...)
+			}
+			if heavy == "burst" || heavy == "both" {
+				insert(p18Op{Kind: "burst", Key: rapid.IntRange(0, 3).Draw(t, "hkey"), Times: rapid.IntRange(95, 130).Draw(t, "htimes")})
+			}
+			if heavy == "many" || heavy == "both" {
+				insert(p18Op{Kind: "many", Times: rapid.IntRange(95, 330).Draw(t, "hmany")})
+			}
 			return c
 		},
 		Check:        runP18,
-		MinLabelFrac: map[string]float64{"merge onto a live key": 0.3, "replace of a live key": 0.3, "delete of a live key": 0.3, "> 100 revisions of one key": 0.05, "> 100 live keys": 0.05},
+		MinLabelFrac: map[string]float64{"merge onto a live key": 0.3, "replace of a live key": 0.3, "delete of a live key": 0.3, "> 100 revisions of one key": 0.05, "> 100 live keys": 0.05, "query with criteria / order / projection": 0.3, "ordered query": 0.15},
 	})
 }
